@@ -101,11 +101,28 @@ theorem C08_before_fix_protobuf_time (jdbc ns : Int) :
 
 /-- every 64-bit integer of a BIGINT column comes back exactly, under both serializers (the documents are read
     with json.Number) -/
-theorem C08_bigint_lossless (ser : Serializer) (i : Int) (h : inRange 64 i = true) :
+theorem C08_bigint_lossless (ser : Serializer) (i : Int) (h : intKept 64 i = true) :
     roundtripVal ser jBigInt (.int i) = .ok (.int i) := by
   have hc : classOf jBigInt = .intN 64 := by decide
   cases ser <;>
     simp [roundtripVal, marshalJson, marshalVal, unmarshalJson, unmarshalPb, hc, unmarshalC, h]
+
+/-- an UNSIGNED column's value above the signed range of its width (TINYINT UNSIGNED 200, INT UNSIGNED 3·10⁹,
+    BIGINT UNSIGNED 2⁶⁴−1) comes back as the number it is -/
+theorem C08_unsigned_lossless (ser : Serializer) (jdbc : Int) (bits : Nat) (i : Int)
+    (hc : classOf jdbc = .intN bits) (h0 : 0 ≤ i) (h1 : i < 2 ^ (if bits = 64 then 64 else 63)) :
+    roundtripVal ser jdbc (.int i) = .ok (.int i) := by
+  have hk : intKept bits i = true := by
+    unfold intKept
+    by_cases hb : bits = 64
+    · simp [hb] at h1 ⊢; omega
+    · simp [hb] at h1 ⊢; omega
+  cases ser <;>
+    simp [roundtripVal, marshalJson, marshalVal, unmarshalJson, unmarshalPb, hc, unmarshalC, hk]
+
+/-- before: TINYINT UNSIGNED 200 came back as another number (the code wrapped it to int8(-56); the model of that
+    code refused it) -/
+theorem C08_before_fix_unsigned : roundtripValBeforeFix .json jTinyInt (.int 200) ≠ .ok (.int 200) := by decide
 
 /-- before: beyond 2^53 the value was refused by the model (the code rounded it through float64) -/
 theorem C08_before_fix_bigint : roundtripValBeforeFix .json jBigInt (.int 9007199254740993) = .error .error := by decide
